@@ -101,6 +101,68 @@ theorem dbscan_ids_contiguous :
 
 end dbscan
 
+/-! ### DBSCAN in the terms of the definition: neighbourhood `{j < n | dist i j < tol}` of a symmetric distance
+
+`rangeQuery dist tol n` satisfies the three hypotheses of the section above for **every** symmetric
+`dist`, so the clauses hold for the labelling computed from it, with nothing assumed about an index. -/
+section metric
+variable {α : Type} [LT α] [DecidableLT α] (dist : Nat → Nat → α) (tol : α) (mp n : Nat)
+
+theorem mem_rangeQuery (i j : Nat) : j ∈ rangeQuery dist tol n i ↔ i < n ∧ j < n ∧ dist i j < tol := by
+  unfold rangeQuery
+  by_cases h : i < n <;> simp [h]
+
+theorem rangeQuery_range (i : Nat) : ∀ j ∈ rangeQuery dist tol n i, j < n :=
+  fun j h => ((mem_rangeQuery dist tol n i j).mp h).2.1
+
+theorem rangeQuery_nodup (i : Nat) : (rangeQuery dist tol n i).Nodup := by
+  unfold rangeQuery
+  split
+  · exact (List.nodup_range).sublist List.filter_sublist
+  · exact List.nodup_nil
+
+theorem rangeQuery_symm (hsymm : ∀ i j, dist i j = dist j i) (i j : Nat) :
+    j ∈ rangeQuery dist tol n i → i ∈ rangeQuery dist tol n j := by
+  intro h
+  obtain ⟨h1, h2, h3⟩ := (mem_rangeQuery dist tol n i j).mp h
+  exact (mem_rangeQuery dist tol n j i).mpr ⟨h2, h1, by rw [hsymm j i]; exact h3⟩
+
+/-- **the labelling of the definition**: with the neighbourhood `{j | dist x j < tol}` of any symmetric
+distance, a sample is labelled exactly when at least `min_points` samples (itself included, when
+`dist x x < tol`) lie within the tolerance of it, or it lies within the tolerance of such a sample. -/
+theorem dbscan_labelled_iff_metric (hsymm : ∀ i j, dist i j = dist j i) (x : Nat) (hx : x < n) :
+    (∃ v, isLab (dbscan (some (rangeQuery dist tol n)) mp n) x v) ↔
+      (mp ≤ (rangeQuery dist tol n x).length ∨
+        ∃ y, y < n ∧ mp ≤ (rangeQuery dist tol n y).length ∧ dist y x < tol) := by
+  rw [dbscan_labelled_iff (rangeQuery dist tol n) mp n (rangeQuery_range dist tol n)
+    (rangeQuery_nodup dist tol n) (rangeQuery_symm dist tol n hsymm) x hx]
+  unfold core
+  constructor
+  · rintro (a | ⟨y, y1, y2⟩)
+    · exact Or.inl a
+    · obtain ⟨h1, _, h3⟩ := (mem_rangeQuery dist tol n y x).mp y2
+      exact Or.inr ⟨y, h1, y1, h3⟩
+  · rintro (a | ⟨y, y1, y2, y3⟩)
+    · exact Or.inl a
+    · exact Or.inr ⟨y, y2, (mem_rangeQuery dist tol n y x).mpr ⟨y1, hx, y3⟩⟩
+
+/-- the number of samples within the tolerance of `x` is what `core` counts -/
+theorem rangeQuery_length (x : Nat) (hx : x < n) :
+    (rangeQuery dist tol n x).length = ((List.range n).filter fun j => decide (dist x j < tol)).length := by
+  unfold rangeQuery; rw [if_pos hx]
+
+end metric
+
+/-- non-vacuity: samples at 0, 1, 2, 9 on a line (distance `|a - b|` on naturals, symmetric), tolerance 2,
+`min_points = 3`: sample 1 is core, 0 and 2 border, 3 noise -/
+def exLine (i j : Nat) : Nat :=
+  let xs := [0, 1, 2, 9]
+  let a := xs[i]?.getD 0; let b := xs[j]?.getD 0
+  if a < b then b - a else a - b
+example : ∀ i j, exLine i j = exLine j i := by
+  intro i j; unfold exLine; simp only; split <;> split <;> omega
+example : dbscan (some (rangeQuery exLine 2 4)) 3 4 = [some 0, some 0, some 0, none] := by decide
+
 /-- non-vacuity: a chain `0 - 1 - 2 - 3`, sample 4 isolated, `min_points = 3`: the relation is
 symmetric, duplicate free, in range; samples 1, 2 are core, 0 and 3 border, 4 noise. -/
 def exNbrs : Nat → List Nat
@@ -251,5 +313,69 @@ theorem dbscan_zero_dimension (mp n : Nat) :
     dbscan none mp n = List.replicate n none := rfl
 
 example : dbscan none 2 3 = [none, none, none] := by decide
+
+/-! ## hyper-parameter guard (`ParamGuard::check` of `DbscanParams` / `OpticsParams`) -/
+section params
+variable {α : Type} [LinearOrder α] [OfNat α 0]
+
+/-- DBSCAN: `check` accepts exactly `min_points ≥ 2 ∧ tolerance > 0` and returns the parameters unchanged -/
+theorem dbscan_params_check_iff (p q : Dbscan.Params α) :
+    p.check = .ok q ↔ (2 ≤ p.minPoints ∧ 0 < p.tolerance ∧ q = p) := by
+  unfold Dbscan.Params.check
+  by_cases h1 : p.minPoints ≤ 1
+  · simp [h1]; omega
+  · by_cases h2 : p.tolerance ≤ 0
+    · simp [h1, h2]; intro _ h; exact absurd h (not_lt.mpr h2)
+    · simp only [h1, h2, if_false, Except.ok.injEq]
+      exact ⟨fun e => ⟨by omega, not_le.mp h2, e.symm⟩, fun e => e.2.2.symm⟩
+
+/-- DBSCAN tests `min_points` first: the error is `MinPoints` iff `min_points ≤ 1`, and `Tolerance` iff
+`min_points ≥ 2` and `tolerance ≤ 0` -/
+theorem dbscan_params_check_error (p : Dbscan.Params α) :
+    (p.check = .error .minPoints ↔ p.minPoints ≤ 1) ∧
+    (p.check = .error .tolerance ↔ 2 ≤ p.minPoints ∧ p.tolerance ≤ 0) := by
+  unfold Dbscan.Params.check
+  by_cases h1 : p.minPoints ≤ 1
+  · simp [h1]; omega
+  · by_cases h2 : p.tolerance ≤ 0
+    · simp [h1, h2]; omega
+    · simp [h1, h2]
+
+/-- OPTICS: same accepted set -/
+theorem optics_params_check_iff (p q : Optics.Params α) :
+    p.check = .ok q ↔ (2 ≤ p.minPoints ∧ 0 < p.tolerance ∧ q = p) := by
+  unfold Optics.Params.check
+  by_cases h2 : p.tolerance ≤ 0
+  · simp [h2]; intro _ h; exact absurd h (not_lt.mpr h2)
+  · by_cases h1 : p.minPoints ≤ 1
+    · simp [h1, h2]; omega
+    · simp only [h1, h2, if_false, Except.ok.injEq]
+      exact ⟨fun e => ⟨by omega, not_le.mp h2, e.symm⟩, fun e => e.2.2.symm⟩
+
+/-- OPTICS tests the tolerance first (the other order than DBSCAN) -/
+theorem optics_params_check_error (p : Optics.Params α) :
+    (p.check = .error .tolerance ↔ p.tolerance ≤ 0) ∧
+    (p.check = .error .minPoints ↔ 0 < p.tolerance ∧ p.minPoints ≤ 1) := by
+  unfold Optics.Params.check
+  by_cases h2 : p.tolerance ≤ 0
+  · simp [h2]; intro h; exact absurd h (not_lt.mpr h2)
+  · by_cases h1 : p.minPoints ≤ 1
+    · simp [h1, h2]; exact not_le.mp h2
+    · simp [h1, h2]
+
+example : (Dbscan.Params.new (1 : Int) 3).check = .ok ⟨3, 1⟩ := by
+  simp [Dbscan.Params.check, Dbscan.Params.new]
+example : ((Dbscan.Params.new (1 : Int) 1).withTolerance 0).check = .error .minPoints := by
+  simp [Dbscan.Params.check, Dbscan.Params.new, Dbscan.Params.withTolerance]
+example : ((Optics.Params.new (1 : Int) 1).withTolerance 0).check = .error .tolerance := by
+  simp [Optics.Params.check, Optics.Params.new, Optics.Params.withTolerance]
+
+/-- the dataset form passes the records on untouched and its targets are the labels of the array form -/
+theorem dbscan_dataset_form {R T : Type} (nbrs : R → Option (Nat → List Nat)) (nrows : R → Nat) (mp : Nat)
+    (ds : R × T) :
+    (transformDataset nbrs nrows mp ds).1 = ds.1 ∧
+    (transformDataset nbrs nrows mp ds).2 = dbscan (nbrs ds.1) mp (nrows ds.1) := ⟨rfl, rfl⟩
+
+end params
 
 end LinfaSpec.Props.C08
